@@ -106,8 +106,8 @@ Qed.
    with the number of rows of the pieces: with well-formed pieces of 1 + 2 rows and a row
    count of 4 it returns normally and the pointer array written is zero-padded in the
    middle, hence not monotone - not a CSR matrix; with a row count of 2 (one too few) it
-   returns normally and a row boundary is overwritten; only from two rows too few on does
-   h5py refuse.  (The dense destination raises RuntimeError "Expected shape ..." in all
+   returns normally and a row boundary is overwritten; h5py refuses only when the clipped slice
+   has to take a piece of two or more rows (a one-row piece is broadcast, possibly to nothing).  (The dense destination raises RuntimeError "Expected shape ..." in all
    these cases.)  c13_amalgamate / c13_amalgamate_join are about the row count that IS the
    number of rows. *)
 Definition rc_pieces : list comp :=
